@@ -144,6 +144,9 @@ func checkCutCase(res *Result, pc *printCase, rng *rand.Rand, idx int, stride in
 			var final error
 			if mode[:3] == "err" {
 				final = errInjected
+				if (k/stride)%3 == 2 {
+					final = errInjectedEOF // a failure that wraps io.EOF is still a failure
+				}
 			}
 			withData := len(mode) > 3
 			src := newSource(data[:k], nil, 0, final, withData)
@@ -185,7 +188,7 @@ func checkCutCase(res *Result, pc *printCase, rng *rand.Rand, idx int, stride in
 				}
 				if bad >= 0 {
 					res.violation(mk(k, mode, "error", fmt.Sprintf("call %d scanned the last, unterminated fragment, which arrives together with the reader failure, but reported %v instead of that failure", bad+1, obs[bad].Err), "errInjected", fmt.Sprint(obs[bad].Err)))
-				} else if last.Err != errInjected {
+				} else if last.Err != final {
 					res.violation(mk(k, mode, "error", fmt.Sprintf("the reader failure is not reported as that error: got %v", last.Err), "errInjected", fmt.Sprint(last.Err)))
 				}
 			} else if last.ErrClass != "eof" && last.ErrClass != "parse" {
